@@ -352,6 +352,10 @@ def touch(b, *a, **k):
     return b
 
 
+# one indexer object shared by every build of the op that uses it
+IDX6 = [[1, 0, 2], [3, 5], [4]]
+
+
 def sum0(b):
     return np.sum(b, axis=0)
 
